@@ -131,6 +131,8 @@ class GenObj:
         self._in = None
         self._out = None
         self.thread = None
+        self.collect = False       # ghost-summary mode: yields are appended to the frame's `_yielded` list
+        self.collected = None
         interp.st.generators.append(self)
 
     def _thread_main(self):
@@ -344,7 +346,14 @@ class Interp:
         if info.is_generator:
             def runner(gen, frame=frame):
                 frame.gen = gen
-                return self._run_body(frame)
+                if gen.collect:
+                    from . import texts
+                    frame.locals['_yielded'] = texts.empty_slist(self, '_yielded')
+                try:
+                    return self._run_body(frame)
+                finally:
+                    if gen.collect:
+                        gen.collected = frame.locals.get('_yielded')
 
             return GenObj(self, runner, info.qualname)
         return self._run_body(frame)
@@ -1335,6 +1344,10 @@ class Interp:
         if frame.gen is None:
             raise Unsupported('yield outside generator frame')
         v = self.eval(node.value, frame) if node.value is not None else None
+        if frame.gen.collect:
+            from . import texts
+            texts.append(self, frame.locals['_yielded'], v)
+            return None
         return frame.gen.do_yield(v)
 
     def e_YieldFrom(self, node, frame):
